@@ -705,11 +705,18 @@ func c16r9(c *Ctx) {
 								hands, resolves = true, true // first hit wins
 							}
 						}
-						if o := calleeObj(ins); o != nil {
+						if deepMay(func(i ssa.Instruction) bool {
+							o := calleeObj(i)
+							if o == nil {
+								return false
+							}
 							switch o.Name() {
 							case "InsertContains", "Contains", "getFromColIdx":
-								resolves = true
+								return true
 							}
+							return false
+						}, 2)(ins) {
+							resolves = true
 						}
 						if mk, ok := ins.(*ssa.MakeClosure); ok {
 							if lit, ok := mk.Fn.(*ssa.Function); ok {
